@@ -6,6 +6,8 @@ import LzmaVerif.Model.Lzma2
 import LzmaVerif.Model.Filters
 import LzmaVerif.Model.Xz
 import LzmaVerif.Model.LzipFile
+import LzmaVerif.Model.Split
+import LzmaVerif.Model.BcjStream
 /-! Request handlers: each maps a parsed request to the canonical answer line. -/
 namespace Driver
 open LzmaVerif
@@ -134,8 +136,43 @@ def handleContainer (cmd : String) (a : Args) : String :=
       | .capped => "capped"
   | _, _ => "bad-op"
 
+/-- split a byte list into parts of the given lengths (the rest goes into a final part) -/
+def cutParts : List Nat → List Nat → List (List Nat)
+  | [], rest => if rest.isEmpty then [] else [rest]
+  | n :: ns, xs => xs.take n :: cutParts ns (xs.drop n)
+
+/-- `bcj.wstream arch= start= parts=<…> in=<hex>` / `bcj.rstream arch= start= sizes=<…> grants=<…> in=<hex>` -/
+def handleBcjStream (cmd : String) (a : Args) : String :=
+  match (a.get? "arch").bind archOf, a.nat? "start", a.bytes? "in" with
+  | some arch, some start, some inp =>
+    if cmd == "bcj.wstream" then
+      match a.nats? "parts" with
+      | some parts => let out := BcjStream.writeParts arch start (cutParts parts inp); s!"ok {out.length} {fnv out}"
+      | none => "bad-op"
+    else
+      match a.nats? "sizes", a.nats? "grants" with
+      | some sizes, some grants => let out := BcjStream.readAll arch start inp sizes grants; s!"ok {out.length} {fnv out}"
+      | _, _ => "bad-op"
+  | _, _, _ => "bad-op"
+
+def showNats (l : List Nat) : String := if l.isEmpty then "-" else ",".intercalate (l.map toString)
+
+/-- `split.xz|split.lzip|split.mt lim=<n> parts=<n,n,…>` -/
+def handleSplit (cmd : String) (a : Args) : String :=
+  match a.nat? "lim", a.nats? "parts" with
+  | some lim, some parts =>
+    if lim = 0 then "bad-op" else
+    match cmd with
+    | "split.xz" => "ok " ++ showNats (Split.xzBlocks lim parts)
+    | "split.lzip" => "ok " ++ showNats (Split.lzipMembers lim parts)
+    | "split.mt" => "ok " ++ showNats (Split.mtUnits lim parts)
+    | _ => "bad-op"
+  | _, _ => "bad-op"
+
 def handle (cmd : String) (a : Args) : String :=
   match cmd with
+  | "split.xz" | "split.lzip" | "split.mt" => handleSplit cmd a
+  | "bcj.wstream" | "bcj.rstream" => handleBcjStream cmd a
   | "xz.dec" | "lzip.dec" => handleContainer cmd a
   | "bcj.code" | "delta.enc" | "delta.dec" => handleFilter cmd a
   | "lzma2.dec" => handleLzma2Dec a
